@@ -395,9 +395,12 @@ def gen_cases(run):
                           bandwidth=5.0, iters=1, L=10 ** 6, n=60, d=3, method='random', trees=3, f=0.0, outputs=2, classes=3,
                           exact=False, dseed=r.randint(0, 10 ** 6)))
     # mixed numerical / one-hot data with the categorical fast path of the leaf kernels (full feature matrix, >= 1 iteration)
-    cat_kernels = [k for k in KERNELS if k[0] in ('l2', 'l1', 'lpq')]
-    for k in range(3 if run.tier == 'quick' else 18):
-        cases.append(dict(family='fitted-models', task=['reg', 'class'][k % 2], mode='zero_one', kernel=list(cat_kernels[k % len(cat_kernels)]), q=1.0,
+    # every (p, q) regime of the Lp/Lq kernel has its own branch on that path: p = 1 (no root), p = 2, and q != 1
+    cat_kernels = [(('l2', {}), 1.0), (('l1', {}), 1.0), (('lpq', {'norm_p': 1.5}), 1.0), (('lpq', {'norm_p': 1.0}), 0.7),
+                   (('l2', {}), 1.4), (('lpq', {'norm_p': 2.0}), 1.3), (('l1', {}), 0.8), (('lpq', {'norm_p': 1.0}), 1.0)]
+    for k in range(8 if run.tier == 'quick' else 32):
+        cases.append(dict(family='fitted-models', task=['reg', 'class'][(k // 2) % 2], mode='zero_one', kernel=list(cat_kernels[k % len(cat_kernels)][0]),
+                          q=cat_kernels[k % len(cat_kernels)][1],
                           diag=False, adaptive=False, bandwidth=r.choice([5.0, 10.0]), iters=r.choice([1, 2]), L=[40, 10 ** 6, 30][k % 3],
                           n=r.choice([80, 120]), d=r.randint(2, 3), method=r.choice(['random', 'pca']), trees=1, f=0.0, outputs=r.randint(1, 2),
                           classes=3, exact=False, cat=[3, 2] if k % 2 else [4], dseed=r.randint(0, 10 ** 6)))
